@@ -74,7 +74,11 @@ func c15Case(c *Ctx) *Result {
 	idle := time.Duration(pick(r, 0, 0, 3, 7, 70, 130)) * time.Second
 	nsess := pick(r, 1, 1, 2, 3)
 	blockedWriter := r.Intn(3) == 0 && !udp
-	params := map[string]interface{}{"udp": udp, "event": event, "idle_s": idle.Seconds(), "nsess": nsess, "blocked_writer": blockedWriter}
+	// a client that only uploads: it never calls Read (separate generator: the other parameters keep their values)
+	r2 := rngFor(c.Seed, "C15-write-only", c.Idx)
+	writeOnly := !blockedWriter && r2.Intn(4) == 0
+	serverReplies := r2.Intn(2) == 0
+	params := map[string]interface{}{"udp": udp, "event": event, "idle_s": idle.Seconds(), "nsess": nsess, "blocked_writer": blockedWriter, "write_only_client": writeOnly}
 	c.Out.Start("C15", fmt.Sprintf("C15-close/%d/%d", c.Seed, c.Idx), c.Seed, params)
 	res := &Result{Params: params, Obs: map[string]float64{}}
 	base, _ := mieruGoroutines()
@@ -111,10 +115,14 @@ func c15Case(c *Ctx) *Result {
 		}
 		b := make([]byte, 16)
 		sc.Read(b)
-		sc.Write([]byte("world"))
-		cc.SetReadDeadline(time.Now().Add(20 * time.Second))
-		cc.Read(b)
-		cc.SetReadDeadline(time.Time{})
+		if !writeOnly || serverReplies {
+			sc.Write([]byte("world"))
+		}
+		if !writeOnly {
+			cc.SetReadDeadline(time.Now().Add(20 * time.Second))
+			cc.Read(b)
+			cc.SetReadDeadline(time.Time{})
+		}
 		ss = append(ss, sess{cc, sc})
 	}
 	var sig, detail string
@@ -127,7 +135,9 @@ func c15Case(c *Ctx) *Result {
 	var blocked []*blockedCall
 	for i, s := range ss {
 		s := s
-		blocked = append(blocked, startBlocked(fmt.Sprintf("Read#%d", i), "client", func() (int, error) { return s.cc.Read(make([]byte, 100)) }))
+		if !writeOnly {
+			blocked = append(blocked, startBlocked(fmt.Sprintf("Read#%d", i), "client", func() (int, error) { return s.cc.Read(make([]byte, 100)) }))
+		}
 		blocked = append(blocked, startBlocked(fmt.Sprintf("Read#%d", i), "server", func() (int, error) { return s.sc.Read(make([]byte, 100)) }))
 	}
 	if blockedWriter {
@@ -287,7 +297,7 @@ func c15Case(c *Ctx) *Result {
 			fail("goroutines-remain-after-shutdown", fmt.Sprintf("%d goroutines with mieru frames remain 130 virtual seconds after both ends were stopped, e.g. %s", n-base, sample))
 		}
 	}
-	res.Shape = shapeHash(udp, event, idle, nsess, blockedWriter)
+	res.Shape = shapeHash(udp, event, idle, nsess, blockedWriter, writeOnly)
 	if sig != "" && udp {
 		res.Witness = hubTrace(env, WireOpts{Users: env.Cfg.Users}, 30)
 	}
